@@ -126,6 +126,17 @@ static inline void *poison_ptr(void)
 #define PTR_EQ(a, b) ((a) == (b))
 #endif
 
+#if defined(NOALLOC) && !defined(NATIVE_REPLAY)
+/* C17: any call to an allocator from library code is a violation; these definitions replace CBMC's built-ins */
+void *malloc(size_t n) { (void) n; __CPROVER_assert(0, "PROP C17 malloc is never called"); return (void *) 0; }
+void *calloc(size_t a, size_t b) { (void) a; (void) b; __CPROVER_assert(0, "PROP C17 calloc is never called"); return (void *) 0; }
+void *realloc(void *p, size_t n) { (void) p; (void) n; __CPROVER_assert(0, "PROP C17 realloc is never called"); return (void *) 0; }
+void free(void *p) { (void) p; __CPROVER_assert(0, "PROP C17 free is never called"); }
+char *strdup(const char *s) { (void) s; __CPROVER_assert(0, "PROP C17 strdup is never called"); return (char *) 0; }
+void *alloca(size_t n) { (void) n; __CPROVER_assert(0, "PROP C17 alloca is never called"); return (void *) 0; }
+void *__builtin_alloca(size_t n) { (void) n; __CPROVER_assert(0, "PROP C17 alloca is never called"); return (void *) 0; }
+#endif
+
 struct in_s;
 #ifdef NATIVE_REPLAY
 #define LOAD_INPUTS() load_inputs()
